@@ -59,7 +59,29 @@ LayoutOK(e, i) ==
      /\ Len(d.val.auth) = AuthLen(e.t)
      /\ Len(e.tokens[i]) = 2 + 3 * Nid + AuthLen(e.t)
 
+\* Refinement of the symbolic messages to the byte grammar of Messages.tla: what the client
+\* put on the wire is exactly one request of its type (canonically encoded, carrying the last
+\* byte of the key id), and what the issuer answered is exactly one response of that type.
+PaddedOriginLen(n) == IF n = 0 THEN 32 ELSE 32 * ((n + 31) \div 32)
+RequestOnWireOK(e) ==
+  CASE e.t \in {1, 2} ->
+         LET d == DecBasicReq(e.req, e.t) IN d.ok /\ Len(d.rest) = 0 /\ d.val.key_id = e.keyid[Nid]
+    [] e.t = 5 ->
+         LET d == DecT5Req(e.req)
+         IN d.ok /\ Len(d.rest) = 0 /\ d.val.key_id = e.keyid[Nid] /\ Len(d.val.elems) = e.n /\ EncT5Req(d.val) = e.req
+    [] e.t = 3 ->
+         LET d == DecT3Req(e.req)
+         IN d.ok /\ Len(d.rest) = 0 /\ EncT3Req(d.val) = e.req
+            /\ Len(d.val.enc_req) = 32 + (1 + Nb2 + 2 + PaddedOriginLen(e.olen)) + 16
+ResponseOnWireOK(e) ==
+  CASE e.t = 1 -> LET d == DecT1Resp(e.resp) IN d.ok /\ Len(d.rest) = 0
+    [] e.t = 2 -> Len(e.resp) = Nresp2
+    [] e.t = 5 -> LET d == DecT5Resp(e.resp) IN d.ok /\ Len(d.rest) = 0 /\ Len(d.val.elems) = e.n /\ EncT5Resp(d.val) = e.resp
+    [] e.t = 3 -> Len(e.resp) = 16 + Nb2 + 16
+
 RunObl(e) == <<
+  <<"request-on-wire-is-grammar", (e.mut.kind = "Id" /\ e.create_ok) => RequestOnWireOK(e)>>,
+  <<"response-on-wire-is-grammar", (e.mut.kind = "Id" /\ e.eval_ok) => ResponseOnWireOK(e)>>,
   <<"quiet", e.panic = "">>,
   <<"honest-completes", e.mut.kind = "Id" => (e.create_ok /\ e.decode_ok /\ e.eval_ok /\ e.fin_ok /\ Len(e.tokens) = NTok(e.t, e.n))>>,
   <<"model-verdict", (e.mut.kind \in Modelled /\ e.eval_ok) => (e.fin_ok <=> Predicted(e).ok)>>,
